@@ -1,0 +1,26 @@
+//! Verification hooks (only compiled with `--cfg anydb_verif`): read-only access to
+//! crate-private codecs and sizes for the external verification harness.
+use crate::{Bytes, Page, Result};
+
+pub const SIZE_OF_PAGE: usize = std::mem::size_of::<Page>();
+
+pub fn page_from_bytes(bytes: &[u8]) -> Result<(u64, u32, u32, bool, u32, u64)> {
+    let p = Page::from_bytes(bytes)?;
+    Ok((
+        p.start,
+        p.bytes,
+        p.values_count() | if p.is_raw() { 1 << 31 } else { 0 },
+        p.is_raw(),
+        p.values_count(),
+        p.start.wrapping_add(p.bytes as u64),
+    ))
+}
+
+pub fn page_to_bytes(start: u64, bytes: u32, values: u32, raw: bool) -> Vec<u8> {
+    let p = if raw {
+        Page::raw(start, bytes, values)
+    } else {
+        Page::compressed(start, bytes, values)
+    };
+    p.to_bytes().to_vec()
+}
